@@ -56,7 +56,7 @@ def std_case(rng, profile):
     return case
 
 
-def std_run(case, monitors, probes=("days",), nontrivial_fn=None, extra_faults=None):
+def std_run(case, monitors, probes=("days",), nontrivial_fn=None, extra_faults=None, final_fn=None):
     spec = case["spec"]
     fired = {}
     ctrl = controller_fn(case.get("controller"), fired)
@@ -68,6 +68,12 @@ def std_run(case, monitors, probes=("days",), nontrivial_fn=None, extra_faults=N
         res["faults"][k] = res["faults"].get(k, 0) + 1
     for k, v in fired.items():
         res["faults"][k] = res["faults"].get(k, 0) + v
+    if res["status"] == "ok" and final_fn is not None:
+        node = res["node"]
+        ctx = res["ctx"]
+        for sig, msg in final_fn(ctx, node, spec):
+            if not any(v["sig"] == sig for v in res["violations"]):
+                res["violations"].append({"sig": sig, "msg": msg, "where": {}})
     if res["status"] == "ok" and nontrivial_fn is not None and nontrivial_fn(res):
         res["nontrivial"] = [config_sig(spec)]
     return finish(res)
